@@ -238,46 +238,63 @@ class C02(Check):
     harness_sources = ['harness/hash.cpp']
     technique = ('machine-checked proof in Coq about a hand-written Gallina model; model tied to the code by an '
                  'extracted-model vs implementation correspondence check')
-    level_text = ('Theorems in Coq (24, all closed under the global context), for every key type with decidable equality, EVERY '
+    level_text = ('Theorems in Coq (29, all closed under the global context), for every key type with decidable equality, EVERY '
                   'hash function (Section variable: all keys in one bucket is an instance), every list of capacities and every '
                   'history over several container variables and all 22 operations (construct, find, contains, positional insert, '
                   'append, prepend, remove by key / iterator / value, removeFront/Back, clear, swap, front/back, copy, assignment, '
                   '==, bulk append/remove, write through the iterator): the model of HashMap/HashSet/PoolMap (bucket chains + '
-                  'insertion-order list + free-item list) keeps the invariant "every listed key is in bucket hash mod capacity '
-                  'exactly once, chains hold only listed keys, sizes agree" (C02_invariant_init/_step/_reachable) and produces '
-                  'exactly the results (returned iterators as rank:key:value, values, booleans) and observations (size, isEmpty, '
-                  'iteration order of every variable after every operation) of a reference insertion-ordered unique-key '
-                  'association list (C02_refines_ordered_map, C02_step_refines, per-operation lemmas). Inserting a present key '
-                  'keeps rank and all other entries and replaces the value for HashMap (C02_insert_present_hashmap) and returns '
-                  'the table unchanged for HashSet/PoolMap (C02_insert_present_set_pool_untouched). Node recycling: live items '
-                  'and free list partition the 4*blocks allocated items in every reachable state (C02_pool_reachable). '
-                  'The model is tied to the code by running the extracted model, the extracted reference and the ASan/UBSan '
-                  'build of the working tree on the same histories and comparing, after every operation, the result, the public '
-                  'state of every variable, and the internals read through an access override: capacity, data!=0, bucket index '
-                  'and chain order of every key, cell back-pointers, prev links, slot (block, index) of every item, free list, '
-                  'number of blocks.')
+                  'insertion-order list + the two links around the end sentinel + free-item list) keeps the invariant "every listed '
+                  'key is in bucket hash mod capacity exactly once, chains hold only listed keys, sizes agree, endItem.prev '
+                  'designates the last item" (C02_invariant_init/_step/_reachable) and produces exactly the results (returned '
+                  'iterators as rank:key:value, values, booleans) and observations (size, isEmpty - read from endItem.prev as the '
+                  'code does -, iteration order of every variable after every operation) of a reference insertion-ordered '
+                  'unique-key association list (C02_refines_ordered_map, C02_step_refines, per-operation lemmas). swap is modelled '
+                  'by its mechanism - each object takes over the other\'s fields, branches on endItem.prev and re-anchors the list '
+                  'on its own sentinel - and proved to exchange sequences, capacities, bucket arrays and free lists '
+                  '(C02_swap_half_reanchors, C02_swap_refines; the proof needs the invariant); in every reachable state the list of '
+                  'variable x runs into the sentinel of x (C02_sentinel_reachable). Inserting a present key keeps rank and all '
+                  'other entries and replaces the value for HashMap (C02_insert_present_hashmap) and returns the table unchanged '
+                  'for HashSet/PoolMap (C02_insert_present_set_pool_untouched). Node recycling: live items and free list partition '
+                  'the 4*blocks allocated items in every reachable state (C02_pool_reachable). The model is tied to the code by '
+                  'running the extracted model, the extracted reference and the ASan/UBSan build of the working tree on the same '
+                  'histories and comparing, after every operation, the result, the public state of every variable, and the '
+                  'internals read through an access override: capacity, data!=0, bucket index and chain order of every key, cell '
+                  'back-pointers, prev links, slot (block, index) of every item, free list, number of blocks, the item endItem.prev '
+                  'designates and the variable whose sentinel the list runs into. front()/back() are called through the non-const '
+                  'and the const overloads (same object required).')
     level_note = ('Trusted: Coq kernel, the reference object (HashSpec.v, 130 lines), extraction + OCaml driver, harness. The '
                   'theorems are about the model; that the model mirrors the C++ is validated by correspondence only (differential, '
-                  'incl. the concrete hash functions hash(int32/int64)=(usize)v and String hash). API preconditions (position <= '
-                  'size, rank < size, non-empty for front/back/removeFront/removeBack, capacity >= 0) are modelled as "call not '
-                  'made". Key equality is assumed to be a decidable Leibniz equality (true of int32/int64/String). x = x: the '
-                  'model carries the self-assignment guard (as if repaired); the unrepaired HashMap/HashSet::operator= empty the '
-                  'container on x = x - this is accounted under C04 (DESIGN section 5 row 2); self-assignment histories are '
-                  'generated when the tree carries the guard or with VERIF_C02_SELF_ASSIGN=1. Value type int / default-constructed 77 for PoolMap; element '
-                  'construction/destruction counts belong to C04.')
+                  'incl. the concrete hash functions: (usize)v for int32/int64/uint32, address >> 3 for const void*, the String '
+                  'hash; the other integer overloads of hash() are only checked textually to be `return (usize)v;`). The default '
+                  'capacity 500, the String-hash multiplier and the pointer-hash shift are regenerated from the headers on every '
+                  'run (Gen_Hash.v). The order list is a Coq list: prev/next pointers between items are not modelled (the harness '
+                  'checks them against the iteration on every dump); of the pointer structure only endItem.prev and the sentinel a '
+                  'list ends in are explicit, swap moves a list as a whole and re-targets these two. That a call compiles for a '
+                  'key/value type is outside the model: two groups of calls (const front()/back() of HashMap<String,int> and '
+                  'PoolMap<K,Val>; removeBack() with const void* keys) are probed with g++ -fsyntax-only and reported as a failure '
+                  'with the compiler message when ill-formed. API preconditions (position <= size, rank < size, non-empty for '
+                  'front/back/removeFront/removeBack, capacity >= 0) are modelled as "call not made". Key equality is assumed to '
+                  'be a decidable Leibniz equality (true of the five key types; equal String keys are presented through '
+                  'differently stored String objects: heap, default-constructed, attached slices). x = x: model and code carry '
+                  'the self-assignment guard (fixes/C02/01); self-assignment histories are generated when the tree carries the '
+                  'guard or with VERIF_C02_SELF_ASSIGN=1. Value type int / default-constructed 77 for PoolMap; element '
+                  'construction/destruction counts belong to C04. After 600 crashes of the implementation in one run the remaining '
+                  'cases are not run.')
     rule = ('case = history of up to ~70 operations over 1-3 container variables of one kind (HashMap<K,int>, HashSet<K>, '
-            'PoolMap<K,Val>), K in {int32,int64,String}, capacities from {0,1,2,3,7,64,500}; streams: mixed, collide (capacity '
-            '1..7 with keys that are multiples of the capacity / Strings equal at the three hashed positions), multi (swap/copy/'
-            'assign/==/bulk), pool (node recycling), malformed (precondition violations), boundary (hand-written), targeted '
+            'PoolMap<K,Val>), K in {int32,int64,uint32,const void*,String}, capacities from {0,1,2,3,7,64,500} (independently per '
+            'variable, so swaps between tables of different capacities are frequent); streams: mixed, collide (capacity '
+            '1..7 with keys that are multiples of the capacity / Strings equal at the three hashed positions / addresses inside '
+            'one 8-byte word), multi (swap/copy/assign/==/bulk), pool (node recycling), malformed (precondition violations), '
+            'boundary (hand-written; incl. the empty String key met by every operation through every String storage), targeted '
             '(every chain position x every removal method; swap of tables of sizes 0..3 then use of both; order/value/prefix-'
             'sensitive ==; present key at every position for every insert flavour), exhaustive (all histories of length <= 3 '
             '(quick) / 4 (thorough) over a 13..17-op alphabet, capacities 1 and 2). A case is non-trivial when the '
             'implementation showed a bucket chain of length >= 2 and the history unlinks something (remove*/clear/assign/swap/'
             'bulk remove) and has >= 5 operations; distinct = distinct op text')
-    assumptions = ['key equality decides Leibniz equality (int32, int64, String)',
+    assumptions = ['key equality decides Leibniz equality (int32, int64, uint32, const void*, String)',
                    'API preconditions hold (violating calls are not made): position <= size, rank < size, non-empty for '
                    'front/back/removeFront/removeBack',
-                   'x = x excluded (C04); model carries the self-assignment guard',
+                   'x = x: model and code carry the self-assignment guard',
                    'the Model mirrors the C++ code: validated by correspondence only']
 
     # ---- member functions that are not instantiable for some key/value types -------------------------------------------
